@@ -6,6 +6,10 @@
 //!   runner <Cxx> <tier> --worker <i> <n> [--from k] [--only <type_id>]
 
 mod universe;
+#[cfg(feature = "mutants")]
+mod mutants;
+#[cfg(not(feature = "mutants"))]
+mod mutants { pub fn all() -> Vec<(&'static str, &'static str, vcore::Entry)> { vec![] } }
 
 use serde_json::{json, Value};
 use std::collections::BTreeMap;
@@ -29,10 +33,18 @@ fn level_of(check: &str) -> &'static str {
 
 fn worker(check: &str, tier: Tier, i: usize, n: usize, from: usize, only: Option<&str>) {
     vcore::env::install_panic_hook();
-    enum Item { Ty(vcore::Entry), Seq(&'static str, Box<dyn seqs::SeqOps>) }
-    let all: Vec<Item> = if check == "C16" { seqs::all().into_iter().map(|(id, o)| Item::Seq(id, o)).collect() } else { universe::all().into_iter().map(Item::Ty).collect() };
-    let id_of = |it: &Item| match it { Item::Ty(e) => e.id, Item::Seq(id, _) => id };
-    let mine: Vec<&Item> = all.iter().enumerate().filter(|(k, e)| k % n == i && only.map_or(true, |o| o == id_of(e))).map(|(_, e)| e).collect();
+    enum Item { Ty(vcore::Entry), Seq(&'static str, Box<dyn seqs::SeqOps>), Mut(&'static str, &'static str, vcore::Entry) }
+    let all: Vec<Item> = if check == "C16" { seqs::all().into_iter().map(|(id, o)| Item::Seq(id, o)).collect() }
+        else if check == "C04" { universe::all().into_iter().map(Item::Ty).chain(mutants::all().into_iter().map(|(f, id, e)| Item::Mut(f, id, e))).collect() }
+        else { universe::all().into_iter().map(Item::Ty).collect() };
+    let id_of = |it: &Item| match it { Item::Ty(e) => e.id, Item::Seq(id, _) => id, Item::Mut(_, id, _) => id };
+    let members: Vec<vcore::checks4::Member> = if check == "C04" { all.iter().map(|it| match it {
+        Item::Ty(e) => vcore::checks4::Member { id: e.id, family: "", ops: e.ops.as_ref() },
+        Item::Mut(f, id, e) => vcore::checks4::Member { id, family: f, ops: e.ops.as_ref() },
+        _ => unreachable!() }).collect() } else { vec![] };
+    let band = if tier == Tier::Thorough { 200 } else { 24 };
+    let mine_idx: Vec<usize> = all.iter().enumerate().filter(|(k, e)| k % n == i && only.map_or(true, |o| o == id_of(e))).map(|(k, _)| k).collect();
+    let mine: Vec<&Item> = mine_idx.iter().map(|k| &all[*k]).collect();
     let out = std::io::stdout();
     let mut cx = Cx::new(check, tier);
     for (k, e) in mine.iter().enumerate().skip(from) {
@@ -43,7 +55,9 @@ fn worker(check: &str, tier: Tier, i: usize, n: usize, from: usize, only: Option
         }
         cx.type_id = id_of(e).to_string();
         let r = match e {
+            Item::Ty(_) | Item::Mut(..) if check == "C04" => vcore::env::guarded(|| vcore::checks4::c04(&members, mine_idx[k], band, &mut cx)),
             Item::Ty(e) => vcore::env::guarded(|| vcore::run_check(e.ops.as_ref(), check, &mut cx)),
+            Item::Mut(..) => unreachable!(),
             Item::Seq(_, o) => vcore::env::guarded(|| seqs::c16(o.as_ref(), &mut cx)),
         };
         if let Err(p) = r { cx.machinery_error(format!("checker panicked: {}", p)); }
@@ -134,6 +148,38 @@ fn run_slot(exe: &std::path::Path, check: &str, tier: Tier, i: usize, n: usize, 
     (lines, crashes)
 }
 
+/// All ordered pairs of the collected (type, hashes, signature) table: equal header hashes
+/// iff equal serialized structure.
+fn c04_pairs(agg: &mut Agg) {
+    let mut rows: Vec<(String, String, String, String)> = vec![]; // id, th+ah, family, sig
+    for l in &agg.notes {
+        let f: Vec<&str> = l.splitn(6, '\t').collect();
+        if f.len() == 6 && f[0] == "SIG" { rows.push((f[1].to_string(), format!("{}{}", f[2], f[3]), f[4].to_string(), f[5].to_string())); }
+    }
+    let n = rows.len() as u64;
+    let mut by_hash: BTreeMap<&str, Vec<usize>> = BTreeMap::new();
+    let mut by_sig: BTreeMap<&str, Vec<usize>> = BTreeMap::new();
+    for (k, r) in rows.iter().enumerate() { by_hash.entry(&r.1).or_default().push(k); by_sig.entry(&r.3).or_default().push(k); }
+    let mut coll = 0u64;
+    let mut viols = vec![];
+    for (_, g) in &by_hash {
+        for a in g { for b in g { if a != b && rows[*a].3 != rows[*b].3 {
+            coll += 1;
+            viols.push((format!("C04|{}|same-header-hashes-as|{}", rows[*a].0, rows[*b].0), 1u64, json!({"check": "C04", "class": "same-header-hashes-different-structure", "type_id": rows[*a].0, "other": rows[*b].0, "sig": rows[*a].3, "other_sig": rows[*b].3, "observed": "both header hashes are equal although the serialized structures differ"})));
+        } } }
+    }
+    for (_, g) in &by_sig {
+        for a in g { for b in g { if a < b && rows[*a].1 != rows[*b].1 {
+            viols.push((format!("C04|{}|different-hashes-same-structure|{}", rows[*a].0, rows[*b].0), 1u64, json!({"check": "C04", "class": "same-structure-different-hashes", "type_id": rows[*a].0, "other": rows[*b].0, "observed": "header hashes differ although the serialized structure is the same"})));
+        } } }
+    }
+    agg.viols.extend(viols);
+    *agg.counters.entry("ordered_pairs_compared_by_hash".into()).or_insert(0) += n * n.saturating_sub(1);
+    *agg.counters.entry("hash_groups".into()).or_insert(0) += by_hash.len() as u64;
+    *agg.counters.entry("pairs_with_equal_hashes_and_different_structure".into()).or_insert(0) += coll;
+    agg.evals += n * n.saturating_sub(1);
+}
+
 fn load_known(check: &str) -> Vec<(String, String)> {
     let mut v = Vec::new();
     if let Ok(s) = std::fs::read_to_string(format!("{}/KNOWN_FINDINGS.txt", VERIF)) {
@@ -193,6 +239,7 @@ fn main() {
         if ty == "<worker>" { agg.machinery.push(format!("worker {}", how)); continue; }
         agg.viols.push((format!("{}|{}|abort:{}", check, ty, how), 1, json!({"check": check, "type_id": ty, "class": format!("abort:{}", how), "observed": "the process running the subject died (abort/segfault) while exploring this type"})));
     }
+    if check == "C04" { c04_pairs(&mut agg); }
     agg.viols.sort_by(|a, b| a.0.cmp(&b.0));
     finish(check, tier, agg, t0, only.is_some());
 }
